@@ -35,7 +35,7 @@ REGISTRY = {
 
 
 # further Props files holding theorems of a property
-EXTRA_PROPS = {'C11': ['C11H', 'C11HX'], 'C17': ['C17H'], 'C03': ['C03X'], 'C16': ['C16X'], 'C04': ['C04X', 'C04B', 'C04C'], 'C12': ['C12X'], 'C07': ['C07X', 'C07Y'], 'C05': ['C05X'], 'C09': ['C09X'], 'C06': ['C06X'], 'C13': ['C13X']}
+EXTRA_PROPS = {'C11': ['C11H', 'C11HX'], 'C17': ['C17H'], 'C03': ['C03X'], 'C16': ['C16X'], 'C04': ['C04X', 'C04B', 'C04C'], 'C12': ['C12X'], 'C08': ['C08X'], 'C07': ['C07X', 'C07Y'], 'C05': ['C05X'], 'C09': ['C09X'], 'C06': ['C06X'], 'C13': ['C13X']}
 
 
 def main():
